@@ -1,0 +1,80 @@
+//go:build verif
+
+package verifhook
+
+import (
+	"mltwist/internal/consoleui"
+	"mltwist/internal/consoleui/emulate"
+	"mltwist/internal/consoleui/internal/memview"
+	"mltwist/internal/state/memory"
+	"mltwist/pkg/expr"
+)
+
+// C30ParseAddr is the argument parser of the memory view's "address" command.
+func C30ParseAddr(s string) (uint64, error) { return memview.VerifC30ParseAddr(s) }
+
+// C30ReadValue feeds line (followed by a newline) to the console input and lets
+// the emulator's value prompt parse it as a value of width w.
+func C30ReadValue(w expr.Width, line string) (expr.Const, error) {
+	SetInput(line + "\n")
+	return emulate.VerifC30ReadValue(w)
+}
+
+// C32MemView is a memory view mode (memview.New) with its commands.
+type C32MemView struct {
+	mode consoleui.Mode
+	cmds []consoleui.Command
+}
+
+// C32NewMemView creates the memory view mode of mem (mem may be nil: the
+// "memory <key>" command of the emulator hands over a nil interface for an
+// unknown key).
+func C32NewMemView(mem memory.Memory) *C32MemView {
+	m := memview.New(mem)
+	return &C32MemView{mode: m, cmds: m.Commands()}
+}
+
+// Command finds the command with the given key.
+func (v *C32MemView) Command(key string) (consoleui.Command, bool) {
+	for _, c := range v.cmds {
+		for _, k := range c.Keys {
+			if k == key {
+				return c, true
+			}
+		}
+	}
+	return consoleui.Command{}, false
+}
+
+// Run parses the arguments of the command key with the command's own argument
+// parsers and executes its Action. The first result is false if an argument
+// was rejected by its parser.
+func (v *C32MemView) Run(key string, args ...string) (parsed bool, err error) {
+	c, ok := v.Command(key)
+	if !ok {
+		panic("verifhook: no such memview command: " + key)
+	}
+	if len(args) != len(c.Args) {
+		panic("verifhook: wrong number of arguments for " + key)
+	}
+
+	vals := make([]interface{}, len(args))
+	for i, a := range args {
+		val, err := c.Args[i](a)
+		if err != nil {
+			return false, err
+		}
+		vals[i] = val
+	}
+
+	return true, c.Action(nil, vals...)
+}
+
+// Cursor returns the cursor position of the view (false: no cursor).
+func (v *C32MemView) Cursor() (int, bool) { return memview.VerifC32Cursor(v.mode) }
+
+// Print renders the view with n lines granted and returns the output.
+func (v *C32MemView) Print(n int) (out string, err error) {
+	out = CaptureStdout(func() { err = v.mode.View().Print(n) })
+	return out, err
+}
